@@ -64,6 +64,7 @@ func (rs *restorer) GetCurrentCheckpoint() *Metadata {
 
 // Implements Restorer.
 func (rs *restorer) RestoreChunk(ctx context.Context, idx uint64, r io.Reader) (bool, error) {
+	var checkpoint *Metadata
 	chunk, err := func() (*ChunkMetadata, error) {
 		rs.Lock()
 		defer rs.Unlock()
@@ -71,6 +72,7 @@ func (rs *restorer) RestoreChunk(ctx context.Context, idx uint64, r io.Reader) (
 		if rs.currentCheckpoint == nil {
 			return nil, ErrNoRestoreInProgress
 		}
+		checkpoint = rs.currentCheckpoint
 
 		// Check if the given chunk is still pending.
 		if !rs.pendingChunks[idx] {
@@ -97,6 +99,12 @@ func (rs *restorer) RestoreChunk(ctx context.Context, idx uint64, r io.Reader) (
 
 	rs.Lock()
 	defer rs.Unlock()
+
+	// The restore may have been aborted while the chunk was being imported, in which case it must
+	// not be reported as done.
+	if rs.currentCheckpoint != checkpoint {
+		return false, ErrNoRestoreInProgress
+	}
 
 	// Mark the given chunk as restored.
 	delete(rs.pendingChunks, idx)
